@@ -426,6 +426,7 @@ func pfactsKey(m map[int]gfact) string {
 type gram struct {
 	w          *World
 	siteStack  []*ssa.Call       // call sites on the way to the function being interpreted
+	keyStart   []*ssa.Call       // the call stack at which the member name being written was opened
 	dynKeys    map[string]dynKey // member names written from data (not constants), by innermost loop site
 	finfo      map[*ssa.Function]*gfinfo
 	memo       map[string][]gout
@@ -688,6 +689,10 @@ type feedOut struct {
 
 func (g *gram) feed(c *gconf, st gstack, data gval) []feedOut {
 	g.nFeeds++
+	if st.expectsKey() {
+		// whatever is written now opens a member name: remember where
+		g.keyStart = append(g.keyStart[:0], g.siteStack...)
+	}
 	switch data.K {
 	case gByteVal:
 		if data.Known {
@@ -762,11 +767,17 @@ func (g *gram) feed(c *gconf, st gstack, data gval) []feedOut {
 
 // noteDynKey records that bytes taken from data are being written inside a member name.
 func (g *gram) noteDynKey() {
-	if len(g.siteStack) == 0 {
+	// the loop that matters is the one around the place where the name was OPENED (the entries loop), not a loop of
+	// the escaper that writes its bytes
+	st := g.keyStart
+	if len(st) == 0 || len(st) > len(g.siteStack) {
+		st = g.siteStack
+	}
+	if len(st) == 0 {
 		return
 	}
 	k := ""
-	for _, s := range g.siteStack {
+	for _, s := range st {
 		k += fmt.Sprintf("%p/", s)
 	}
 	if _, ok := g.dynKeys[k]; ok {
@@ -776,7 +787,7 @@ func (g *gram) noteDynKey() {
 	if len(g.chain) > 0 {
 		root = g.chain[0]
 	}
-	g.dynKeys[k] = dynKey{stack: append([]*ssa.Call{}, g.siteStack...), root: root}
+	g.dynKeys[k] = dynKey{stack: append([]*ssa.Call{}, st...), root: root}
 }
 
 func applyRefs(c *gconf, refs []grefine) {
